@@ -334,16 +334,20 @@ LAW(L04_median_mean_center, RC, 40000, 1200000, 150, "length <= 2, ties, or a ze
 
 // =================================================================== L05 var, sd, cov, cor
 // Definitions (two-pass, long double): cov_b = sum w_i (x_i-mx)(y_i-my), w_i = 1/n or normalised weights;
-// unbiased: *n/(n-1) resp. /(1-sum w_i^2).  Tolerance 64(n+2)eps*max|x|*max|y| (128 weighted), derived from the
-// forward error of the two-pass algorithm.  cor is inspected only when both variances exceed 100x their tolerance.
+// unbiased: *n/(n-1) resp. /(1-sum w_i^2).  Tolerance K max|x| max|y| with K = 64(n+2)eps (128 weighted), or, when smaller (data
+// with a small spread on a large offset), K(max|x| spread(y) + max|y| spread(x) + spread(x) spread(y)) + K^2 max|x| max|y|: both are
+// forward error bounds of the centred (two-pass) definition.  cor is inspected only when both variances exceed 100x their tolerance.
 // Documented DimensionException: cov/cor (two vectors), weighted var/sd (vector and weights), weighted cov/cor (two vectors).
 LAW(L05_moments, RC, 48000, 1440000, 220, "length <= 2, a constant vector, ties, a zero weight or unequal lengths") {
   int f = c.irange(0, 7); size_t n = genLen(c);
   static const char* const NM[] = {"var", "sd", "cov", "cor", "var_w", "sd_w", "cov_w", "cor_w"};
   bool two = f == 2 || f == 3 || f == 6 || f == 7, weighted = f >= 4;
   size_t m = two ? genLen2(c, n) : n, wl = weighted ? genLen2(c, n) : 0;
-  int kind = static_cast<int>(c.weighted({3, 2, 1}));
-  auto gen = [&](size_t k) { return kind == 0 ? genDyadic(c, k, 64) : kind == 1 ? genReals(c, k, -100, 100) : vector<double>(k, c.ival(5)); };
+  int kind = static_cast<int>(c.weighted({3, 2, 1, 2}));
+  // kind 3: a small spread on a large offset (|mean| / sd up to 1e12): where a formula that is not the centred definition cancels
+  auto gen = [&](size_t k) {
+    if (kind == 3) { double off = c.pick({1e4, 1e6, 1e9, -1e9, 1e12, 1099511627776.0, -3e7}); auto v = c.flag() ? genDyadic(c, k, 64) : genReals(c, k, -10, 10); for (auto& e : v) e += off; return v; }
+    return kind == 0 ? genDyadic(c, k, 64) : kind == 1 ? genReals(c, k, -100, 100) : vector<double>(k, c.ival(5)); };
   vector<double> x = tight(gen(n)), y = two ? tight(gen(m)) : x; auto w = genWeights(c, wl);
   bool unbiased = c.flag(), norm = !c.oneIn(3);
   c.desc << NM[f] << " x=" << shv(x); if (two) c.desc << " y=" << shv(y); if (weighted) c.desc << " w=" << shv(w) << " normalize=" << norm;
@@ -378,23 +382,29 @@ LAW(L05_moments, RC, 48000, 1440000, 220, "length <= 2, a constant vector, ties,
   LD cxy = 0, cxx = 0, cyy = 0;
   for (size_t i = 0; i < n; ++i) { cxy += p[i] * (x[i] - mx) * (y[i] - my); cxx += p[i] * (x[i] - mx) * (x[i] - mx); cyy += p[i] * (y[i] - my) * (y[i] - my); }
   LD K = (weighted ? 128 : 64) * (static_cast<LD>(n) + 2) * EPS;
+  // forward error of the centred (two-pass) definition: the centred values carry an absolute error ~ n eps max|x|, so the sum of
+  // products errs by ~ n eps (max|x| spread(y) + max|y| spread(x)) + second-order terms; the smaller of this and K max|x| max|y| is used
+  LD Sx = 0, Sy = 0; for (size_t i = 0; i < n; ++i) { Sx = max<LD>(Sx, fabsl(x[i] - mx)); Sy = max<LD>(Sy, fabsl(y[i] - my)); }
+  auto tolOf = [&](LD a, LD sa, LD b, LD sb) { return min<LD>(K * a * b, K * (a * sb + b * sa + sa * sb) + K * K * a * b); };
+  const LD TXY = tolOf(A, Sx, B, Sy), TXX = tolOf(A, Sx, A, Sx), TYY = tolOf(B, Sy, B, Sy);
+  if (kind == 3) c.label("offset_data");
   LD den = 1 - sp2;  // unbiased: divide by 1 - sum p_i^2  (= (n-1)/n unweighted)
   bool ub = unbiased && f != 3 && f != 7;
   if (ub && den < 1e-6) return;  // one effective observation: x/0, not inspected
   auto fin = [&](LD v, LD tol, LD& outTol) { if (ub) { outTol = (tol + fabsl(v) * 4 * (static_cast<LD>(n) + 2) * EPS) / den; return v / den; } outTol = tol; return v; };
   LD tol = 0;
   switch (f) {
-    case 0: case 4: { LD e = fin(cxx, K * A * A, tol); CHECK(closeTo(g, e, tol, c, "var"), NM[f] << "=" << sh(g) << " expected " << sh(static_cast<double>(e)) << " tol " << sh(static_cast<double>(tol))); CHECK(g >= 0, "negative variance"); break; }
-    case 2: case 6: { LD e = fin(cxy, K * A * B, tol); CHECK(closeTo(g, e, tol, c, "cov"), NM[f] << "=" << sh(g) << " expected " << sh(static_cast<double>(e)) << " tol " << sh(static_cast<double>(tol))); break; }
-    case 1: case 5: { LD e = fin(cxx, K * A * A, tol); LD sd = sqrtl(e);
+    case 0: case 4: { LD e = fin(cxx, TXX, tol); CHECK(closeTo(g, e, tol, c, "var"), NM[f] << "=" << sh(g) << " expected " << sh(static_cast<double>(e)) << " tol " << sh(static_cast<double>(tol))); CHECK(g >= 0, "negative variance"); break; }
+    case 2: case 6: { LD e = fin(cxy, TXY, tol); CHECK(closeTo(g, e, tol, c, "cov"), NM[f] << "=" << sh(g) << " expected " << sh(static_cast<double>(e)) << " tol " << sh(static_cast<double>(tol))); break; }
+    case 1: case 5: { LD e = fin(cxx, TXX, tol); LD sd = sqrtl(e);
       LD tsd = e > 4 * tol ? tol / sd + 2 * EPS * sd : 2 * sqrtl(tol) + 2 * EPS * sd;
       CHECK(closeTo(g, sd, tsd, c, "sd"), NM[f] << "=" << sh(g) << " expected " << sh(static_cast<double>(sd)) << " tol " << sh(static_cast<double>(tsd))); break; }
     default: {
-      LD tx = K * A * A, ty = K * B * B;
+      LD tx = TXX, ty = TYY;
       if (f == 3 && n < 2) return;
       if (!(cxx > 100 * tx && cyy > 100 * ty)) return;  // (nearly) constant sample: 0/0, not inspected
       LD e = cxy / (sqrtl(cxx) * sqrtl(cyy));
-      LD tc = K * A * B / (sqrtl(cxx) * sqrtl(cyy)) + tx / cxx + ty / cyy + 16 * EPS;
+      LD tc = TXY / (sqrtl(cxx) * sqrtl(cyy)) + tx / cxx + ty / cyy + 16 * EPS;
       CHECK(closeTo(g, e, tc, c, "cor"), NM[f] << "=" << sh(g) << " expected " << sh(static_cast<double>(e)) << " tol " << sh(static_cast<double>(tc)));
       CHECK(std::fabs(g) <= 1 + static_cast<double>(tc), "Cauchy-Schwarz: |cor|=" << sh(std::fabs(g)) << " > 1");
     }
@@ -530,6 +540,19 @@ LAW(L08_builders, RC, 48000, 1440000, 200, "an empty operand, repeated elements,
       vector<int> e; for (int i = 0; i <= cnt; ++i) e.push_back(down ? from - i * by : from + i * by);
       if (from > to) c.excludeIfKnown("C07-seq-descending");
       auto g = VT::seq(from, to, by); CHECK(g == e, "seq=" << shv(g) << " expected " << shv(e));
+    } else if (c.oneIn(3)) {
+      // decimal steps: `to` is from + cnt*by up to rounding and is documented as included ("to: The end (included)"); with a fraction
+      // of a step left over (fr = 1, 2: a quarter / half step) the sequence stops at the last term before `to`
+      int b10 = c.pick({1, 2, 3, 5, 7, 11}), f10 = static_cast<int>(c.zig(30)), sc = c.pick({10, 100, 1000});
+      double from = static_cast<double>(f10) / sc, by = static_cast<double>(b10) / sc;
+      int sgn = down ? -1 : 1; bool literal = c.flag();
+      double to = fr == 0 ? (literal ? static_cast<double>(f10 + sgn * cnt * b10) / sc : from + sgn * cnt * by) : from + sgn * (cnt + fr * 0.25) * by;
+      c.desc << " from=" << sh(from) << " to=" << sh(to) << " by=" << sh(by) << " (decimal, " << cnt << (fr ? "+frac" : "") << " steps)"; c.nt(from >= to); c.label("seq_decimal");
+      if (from > to) c.excludeIfKnown("C07-seq-descending");
+      auto g = VT::seq(from, to, by);
+      CHECK(g.size() == static_cast<size_t>(cnt) + 1, "seq has " << g.size() << " terms, expected " << cnt + 1 << " (from, from+-by, ... up to the included end): " << shv(g));
+      for (int i = 0; i <= cnt; ++i) { double e = from + sgn * i * by, tol = 4.0 * (i + 2) * DBL_EPSILON * (std::fabs(from) + i * by);
+        CHECK(std::fabs(g[static_cast<size_t>(i)] - e) <= tol, "seq term " << i << " = " << sh(g[static_cast<size_t>(i)]) << " expected " << sh(e)); }
     } else {
       double from = c.ival(40) / 4, by = c.pick({1.0, 0.5, 0.25, 0.125, 2.0}), d = (cnt + fr * 0.25) * by, to = down ? from - d : from + d;
       c.desc << " from=" << sh(from) << " to=" << sh(to) << " by=" << sh(by); c.nt(from >= to);
